@@ -708,7 +708,7 @@ namespace plan
       auto &v = m.evars[modn(op.arg(1), m.evars.size())];
       std::vector<size_t> cands;
       auto related = [&](int e1, int e2)
-      { return e1 == e2 || m.enums[e1].includes == e2 || m.enums[e2].includes == e1; };
+      { return m.enum_related(e1, e2); };
       for (size_t i = 0; i < m.evars.size(); ++i)
         if (m.evars[i].name != v.name && related(m.evars[i].en, v.en))
           cands.push_back(i);
